@@ -92,6 +92,19 @@ MUTANTS = [
      "                    std::ops::ControlFlow::Break(_) => {\n                        bail!(\"Interpreter stopped\")\n                    }",
      "                    std::ops::ControlFlow::Break(_) => Err(anyhow::anyhow!(\"Interpreter stopped\")),",
      "a failing file no longer stops the run: the -e block is still evaluated"),
+    ("m22g", "C22", "caught", "numbat/src/diagnostic.rs",
+     "                            .map(|(i, c)| i + c.len_utf8())\n                            .last()\n                            .unwrap_or_default();\n                        let error_cause = &error_cause[..end_idx]",
+     "                            .map(|(i, _)| i)\n                            .last()\n                            .unwrap_or_default();\n                        let error_cause = &error_cause[..=end_idx]",
+     "F6 fix reverted: the backtrace summary of a run-time error is cut inside a multi-byte character (CLI crashes)"),
+    ("ctl3", "ALL", "benign", "numbat/src/resolver.rs",
+     "format!(\"<input:{}>\", self.text_code_source_count)", "format!(\"<cmdline #{}>\", self.text_code_source_count)",
+     "BENIGN CONTROL: other label for text inputs in diagnostics (C22 learns the labels from the binary)"),
+    ("ctl4", "ALL", "benign", "numbat/src/pretty_print.rs",
+     "            digit_grouping_threshold: 6,", "            digit_grouping_threshold: 3,",
+     "BENIGN CONTROL (for the five claimed properties): numbers are grouped from 1_000 on (C18 level 2 renders expected scalars through numbat)"),
+    ("ctl5", "ALL", "benign", "numbat/src/lib.rs",
+     "                help += m::text(\"A unit of: \") + md.readable_type + m::nl();", "                help += m::text(\"Unit of: \") + md.readable_type + m::nl();",
+     "BENIGN CONTROL: reworded `info` text"),
     ("ctl1", "ALL", "benign", "numbat/src/interpreter/mod.rs",
      "    #[error(\"Division by zero\")]", "    #[error(\"Division by 0\")]",
      "BENIGN CONTROL: reworded error message"),
